@@ -45,13 +45,14 @@ import (
 )
 
 const (
-	coordGroup     = "g"
-	coordTickEvery = 1 * time.Second // CoordinatorConfig.CleanupInterval
-	coordSessionTO = 3 * time.Second // session timeout every member asks for
-	coordRebalTO   = 2 * time.Second // rebalance timeout every member asks for
-	coordGhostID   = "g-ghost"       // a member id the coordinator never issued
-	coordIDLo      = int64(1000000000000000000)
-	coordIDHi      = int64(9000000000000000000) // all ids have 19 digits: string order == numeric order
+	coordGroup      = "g"
+	coordTickEvery  = 1 * time.Second // CoordinatorConfig.CleanupInterval
+	coordSessionTO  = 3 * time.Second // session timeout every member asks for
+	coordSessionAlt = 5 * time.Second // the other session timeout a (re)join may ask for (session-change run of C43 only)
+	coordRebalTO    = 2 * time.Second // rebalance timeout every member asks for
+	coordGhostID    = "g-ghost"       // a member id the coordinator never issued
+	coordIDLo       = int64(1000000000000000000)
+	coordIDHi       = int64(9000000000000000000) // all ids have 19 digits: string order == numeric order
 )
 
 var (
@@ -63,15 +64,16 @@ var (
 // ---------------------------------------------------------------- configuration
 
 type coordCfg struct {
-	Store     string          // "mem" | "codec"
-	MaxLive   int             // members in the group at one time
-	MaxIssued int             // member ids issued in one history
-	Deltas    []time.Duration // advance events
-	CommitTPs []string        // partitions offered to commit events
-	Resub     bool            // offer rejoin with a changed subscription
-	StoreFaults bool          // timing run only: an event arms ONE failing PutConsumerGroup (transient metadata-store write error)
-	Timing    bool            // timing run: reduced request alphabet (join{a}/rejoin/sync/heartbeat/leave, current generation only), finer advances
-	Depth     int
+	Store         string          // "mem" | "codec"
+	MaxLive       int             // members in the group at one time
+	MaxIssued     int             // member ids issued in one history
+	Deltas        []time.Duration // advance events
+	CommitTPs     []string        // partitions offered to commit events
+	Resub         bool            // offer rejoin with a changed subscription
+	StoreFaults   bool            // timing run only: an event arms ONE failing PutConsumerGroup (transient metadata-store write error)
+	Timing        bool            // timing run: reduced request alphabet (join{a}/rejoin/sync/heartbeat/leave, current generation only), finer advances
+	SessionChange bool            // timing alphabet only (C43): every join/rejoin exists in two variants asking for session coordSessionTO or coordSessionAlt
+	Depth         int
 }
 
 // coordTimingCfg: irregular heartbeat spacing. Advances from a quarter of a cleanup interval (1/12 of the
@@ -81,6 +83,17 @@ func coordTimingCfg(depth, live, issued int) *coordCfg {
 	return &coordCfg{
 		Store: "mem", MaxLive: live, MaxIssued: issued, Depth: depth, Timing: true,
 		Deltas:    []time.Duration{250 * time.Millisecond, 500 * time.Millisecond, 1000 * time.Millisecond, 1500 * time.Millisecond, 2000 * time.Millisecond, 2500 * time.Millisecond, 3000 * time.Millisecond, 3500 * time.Millisecond},
+		CommitTPs: []string{"a:0"},
+	}
+}
+
+// coordSessionCfg: the session timeout a member asks for changes between its joins. Timing alphabet in which
+// every join and rejoin asks for 3 s or for 5 s; advances on and off the tick grid up to beyond the longer
+// session, so that ticks between the two sessions and beyond both are produced for every (old, new) pair.
+func coordSessionCfg(depth, live, issued int) *coordCfg {
+	return &coordCfg{
+		Store: "mem", MaxLive: live, MaxIssued: issued, Depth: depth, Timing: true, SessionChange: true,
+		Deltas:    []time.Duration{250 * time.Millisecond, 500 * time.Millisecond, 1000 * time.Millisecond, 1500 * time.Millisecond, 2000 * time.Millisecond, 2500 * time.Millisecond, 3000 * time.Millisecond, 3500 * time.Millisecond, 4000 * time.Millisecond, 5000 * time.Millisecond, 5500 * time.Millisecond},
 		CommitTPs: []string{"a:0"},
 	}
 }
@@ -100,6 +113,7 @@ func coordDefaultCfg(store string, depth int) *coordCfg {
 //
 //	join    new member: S = index into coordSubsAlphabet, R = rank of the new id among the live ids
 //	rejoin  member M joins again with its member id (S = -1: same subscription, else new subscription index)
+//	        join/rejoin: D = session timeout asked for in milliseconds, 0 = coordSessionTO
 //	sync / hb / commit   member M (issue number 1.., or -1 = never issued id) with generation current+G (G in {0,-1})
 //	leave   member M
 //	adv     D milliseconds of virtual time pass
@@ -111,7 +125,22 @@ type coordEv struct {
 	S int8  // subscription index; -1 = unchanged (rejoin)
 	R int8  // rank of the new id
 	T int8  // index into coordAllTPs
-	D int16 // milliseconds
+	D int16 // milliseconds (adv: time that passes; join/rejoin: session timeout asked for, 0 = coordSessionTO)
+}
+
+// sess is the session timeout a join/rejoin event asks for.
+func (e coordEv) sess() time.Duration {
+	if e.D > 0 {
+		return time.Duration(e.D) * time.Millisecond
+	}
+	return coordSessionTO
+}
+
+func (e coordEv) sessSuffix() string {
+	if e.D > 0 {
+		return fmt.Sprintf(",session=%.1fs", float64(e.D)/1000)
+	}
+	return ""
 }
 
 type coordKind uint8
@@ -198,12 +227,12 @@ func (e coordEv) String() string {
 	}
 	switch e.K {
 	case coordKJoin:
-		return fmt.Sprintf("join(new,subs=%v,rank=%d)", coordSubsAlphabet[e.S], e.R)
+		return fmt.Sprintf("join(new,subs=%v,rank=%d%s)", coordSubsAlphabet[e.S], e.R, e.sessSuffix())
 	case coordKRejoin:
 		if e.S >= 0 {
-			return fmt.Sprintf("rejoin(%s,subs=%v)", coordMemberName(e.M), coordSubsAlphabet[e.S])
+			return fmt.Sprintf("rejoin(%s,subs=%v%s)", coordMemberName(e.M), coordSubsAlphabet[e.S], e.sessSuffix())
 		}
-		return fmt.Sprintf("rejoin(%s)", coordMemberName(e.M))
+		return fmt.Sprintf("rejoin(%s%s)", coordMemberName(e.M), e.sessSuffix())
 	case coordKSync, coordKHb:
 		return fmt.Sprintf("%s(%s,gen=%s)", e.K, coordMemberName(e.M), gen)
 	case coordKCommit:
@@ -614,8 +643,17 @@ type coordLedMember struct {
 	HasSync     bool      // it has a successful sync reply ...
 	SyncGen     int32     // ... in this generation ...
 	SyncAssign  map[string][]int32
-	FoSinceJoin bool  // a failover happened after its last join
-	ResubGen    int32 // generation in which it re-joined with a different subscription and no new generation was started (0 = none)
+	FoSinceJoin bool          // a failover happened after its last join
+	Sess        time.Duration // session timeout asked for in its last join request (0 = coordSessionTO)
+	ResubGen    int32         // generation in which it re-joined with a different subscription and no new generation was started (0 = none)
+}
+
+// session is the session timeout the member is judged by: the one of its latest join.
+func (m *coordLedMember) session() time.Duration {
+	if m == nil || m.Sess == 0 {
+		return coordSessionTO
+	}
+	return m.Sess
 }
 
 // coordLedger is the reference state shared by the oracles. Membership itself is read
@@ -653,6 +691,7 @@ type coordStep struct {
 	ReqMember string
 	ReqGen    int32
 	ReqSubs   []string
+	ReqSess   time.Duration // join/rejoin: session timeout asked for
 	CommitOff int64
 	Reissued  int // a JoinGroup without member id was answered with an id issued before in this history (issue number), 0 = fresh
 	Resp      *coordResp
@@ -811,11 +850,17 @@ func (w *coordWorld) Enabled() []coordEv {
 	if w.cfg.Timing {
 		if len(p.IDs) < w.cfg.MaxLive && len(w.ids) < w.cfg.MaxIssued {
 			evs = append(evs, coordEv{K: coordKJoin, S: 1, R: int8(len(p.IDs))})
+			if w.cfg.SessionChange {
+				evs = append(evs, coordEv{K: coordKJoin, S: 1, R: int8(len(p.IDs)), D: int16(coordSessionAlt / time.Millisecond)})
+			}
 		}
 		for i, id := range w.ids {
 			if p.has(id) {
 				m := int8(i + 1)
 				evs = append(evs, coordEv{K: coordKSync, M: m}, coordEv{K: coordKHb, M: m}, coordEv{K: coordKRejoin, M: m, S: -1}, coordEv{K: coordKLeave, M: m})
+				if w.cfg.SessionChange {
+					evs = append(evs, coordEv{K: coordKRejoin, M: m, S: -1, D: int16(coordSessionAlt / time.Millisecond)})
+				}
 			}
 		}
 		if p.Exists {
@@ -896,12 +941,12 @@ func (w *coordWorld) Replay(e coordEv) string {
 	return obs
 }
 
-func (w *coordWorld) joinRequest(memberID string, subs []string) *kmsg.JoinGroupRequest {
+func (w *coordWorld) joinRequest(memberID string, subs []string, sess time.Duration) *kmsg.JoinGroupRequest {
 	req := kmsg.NewPtrJoinGroupRequest()
 	req.Group = coordGroup
 	req.MemberID = memberID
 	req.ProtocolType = "consumer"
-	req.SessionTimeoutMillis = int32(coordSessionTO / time.Millisecond)
+	req.SessionTimeoutMillis = int32(sess / time.Millisecond)
 	req.RebalanceTimeoutMillis = int32(coordRebalTO / time.Millisecond)
 	pr := kmsg.NewJoinGroupRequestProtocol()
 	pr.Name = "range"
@@ -928,7 +973,7 @@ func (w *coordWorld) call(c *GroupCoordinator, st *coordStep) (r *coordResp) {
 	r = &coordResp{Kind: kind}
 	switch kind {
 	case "join", "rejoin":
-		req := w.joinRequest(st.ReqMember, st.ReqSubs)
+		req := w.joinRequest(st.ReqMember, st.ReqSubs, st.ReqSess)
 		needID := w.nextValSet && (st.ReqMember == "" || !st.Pre.has(st.ReqMember))
 		resp, err := func() (*kmsg.JoinGroupResponse, error) {
 			if needID {
@@ -1029,9 +1074,11 @@ func (w *coordWorld) step(e coordEv, judged bool) (string, []xstate.Violation) {
 		case coordKJoin:
 			st.ReqMember = ""
 			st.ReqSubs = coordSubsAlphabet[e.S]
+			st.ReqSess = e.sess()
 			w.nextVal, w.nextValSet = w.pickVal(int(e.R)), true
 		case coordKRejoin:
 			st.ReqMember = w.idOf(int(e.M))
+			st.ReqSess = e.sess()
 			if e.S >= 0 {
 				st.ReqSubs = coordSubsAlphabet[e.S]
 			} else if lm := w.led.M[st.ReqMember]; lm != nil {
@@ -1250,6 +1297,7 @@ func (l *coordLedger) update(w *coordWorld, st *coordStep) {
 			m.Subs = append([]string(nil), st.ReqSubs...)
 			m.JoinedGen = r.Gen
 			m.LastRefresh = st.At
+			m.Sess = st.ReqSess
 			m.FoSinceJoin = false
 			l.LeaderNamed = r.Leader
 			if !l.HasGen || r.Gen > l.MaxGen {
@@ -1384,7 +1432,11 @@ func (w *coordWorld) Canon() string {
 			if lm.HasSync && lm.SyncGen == p.Gen {
 				sy = coordAssignString(lm.SyncAssign)
 			}
-			fmt.Fprintf(&b, " ~%v j%t r%s s%s f%t c%t", lm.Subs, lm.JoinedGen == p.Gen, coordCapAge(now, lm.LastRefresh, coordSessionTO), sy, lm.FoSinceJoin, lm.ResubGen == p.Gen && p.Gen != 0)
+			// the reference age saturates at the session of the member's latest join (== coordSessionTO in every run without SessionChange)
+			fmt.Fprintf(&b, " ~%v j%t r%s s%s f%t c%t", lm.Subs, lm.JoinedGen == p.Gen, coordCapAge(now, lm.LastRefresh, lm.session()), sy, lm.FoSinceJoin, lm.ResubGen == p.Gen && p.Gen != 0)
+			if w.cfg.SessionChange {
+				fmt.Fprintf(&b, " q%d", lm.session()/time.Millisecond)
+			}
 		} else {
 			b.WriteString(" ~none")
 		}
@@ -1475,6 +1527,23 @@ func coordRunCheck(t *testing.T, id string, mk func() coordOracle, rule string, 
 			d = v
 		}
 		plan.Runs = append([]*coordCfg{coordTimingCfg(d, live, issued)}, plan.Runs...)
+		if id == "C43" {
+			// the session timeout asked for changes between the joins of one member id
+			sd, slive, sissued := 40, 2, 2
+			if vh.Thorough() {
+				sissued = 3
+			}
+			if v, err := strconv.Atoi(os.Getenv("VERIF_C43_SESSION_DEPTH")); err == nil {
+				sd = v
+			}
+			if v, err := strconv.Atoi(os.Getenv("VERIF_C43_SESSION_ISSUED")); err == nil {
+				sissued = v
+			}
+			plan.Runs = append(plan.Runs[:1:1], append([]*coordCfg{coordSessionCfg(sd, slive, sissued)}, plan.Runs[1:]...)...)
+			if vh.Thorough() { // the canonical key has one more component in this run: cross-check it as well
+				plan.NoMergeRuns = append(plan.NoMergeRuns, coordSessionCfg(4, 2, 2))
+			}
+		}
 		if id == "C13" {
 			// the same alphabet plus one transient failure of a group write of the metadata store
 			sf := coordTimingCfg(d, 2, 2)
@@ -1490,6 +1559,12 @@ func coordRunCheck(t *testing.T, id string, mk func() coordOracle, rule string, 
 		res := coordExplore(t, rep, cfg, mk, deadline)
 		info := map[string]any{"store": cfg.Store, "depth": cfg.Depth, "max_live": cfg.MaxLive, "max_issued": cfg.MaxIssued, "resubscribe": cfg.Resub, "timing_alphabet": cfg.Timing, "store_write_fault": cfg.StoreFaults,
 			"commit_partitions": cfg.CommitTPs, "deltas_ms": coordDeltasMs(cfg), "new_states_per_depth": res.Levels}
+		if cfg.SessionChange {
+			info["session_change"] = true
+			info["sessions_ms"] = []int{int(coordSessionTO / time.Millisecond), int(coordSessionAlt / time.Millisecond)}
+			rep.Count("session_change_states", int64(res.States))
+			rep.Count("session_change_transitions", int64(res.Transitions))
+		}
 		if res.Capped != "" {
 			rep.Cap(fmt.Sprintf("%s depth %d: %s", cfg.Store, cfg.Depth, res.Capped))
 			info["capped"] = res.Capped
@@ -1529,7 +1604,7 @@ func coordNontrivial(obs string) bool { return !strings.HasSuffix(obs, "#trivial
 func coordExplore(t *testing.T, rep *vh.Report, cfg *coordCfg, mk func() coordOracle, deadline time.Time) xstate.Result[coordEv] {
 	nviol := map[string]int{}
 	res := xstate.Run(xstate.Options[coordEv]{
-		Config: coordShardCfg(xstate.Config{MaxDepth: cfg.Depth, Deadline: deadline}, fmt.Sprintf("%s-d%d-r%t-t%t-sf%t", cfg.Store, cfg.Depth, cfg.Resub, cfg.Timing, cfg.StoreFaults)),
+		Config: coordShardCfg(xstate.Config{MaxDepth: cfg.Depth, Deadline: deadline}, fmt.Sprintf("%s-d%d-r%t-t%t-sf%t%s", cfg.Store, cfg.Depth, cfg.Resub, cfg.Timing, cfg.StoreFaults, map[bool]string{true: "-sc"}[cfg.SessionChange])),
 		Build:  func() xstate.System[coordEv] { return coordNewWorld(cfg, mk()) },
 		Wrap:   coordBubble(t),
 		Found: func(f xstate.Found[coordEv]) {
@@ -1622,7 +1697,7 @@ func coordCrossCheck(t *testing.T, rep *vh.Report, cfg *coordCfg, mk func() coor
 		}
 	}
 	sort.Strings(vdiff)
-	rep.SetInfo("nomerge_crosscheck", map[string]any{"store": cfg.Store, "depth": cfg.Depth, "merged_states": ms.States, "merged_transitions": ms.Transitions,
+	rep.SetInfo("nomerge_crosscheck"+map[bool]string{true: "_session_change"}[cfg.SessionChange], map[string]any{"store": cfg.Store, "depth": cfg.Depth, "merged_states": ms.States, "merged_transitions": ms.Transitions,
 		"unmerged_histories": us.States, "unmerged_transitions": us.Transitions, "canonical_keys": len(mk1), "keys_only_merged": onlyM, "keys_only_unmerged": onlyU, "violation_key_differences": vdiff})
 	rep.Count("nomerge_histories", int64(us.States))
 	if onlyM != 0 || onlyU != 0 || len(vdiff) != 0 {
